@@ -93,7 +93,7 @@ def run(ctx):
     for c in cfgs:
         name = {"GenPBNode.cfg": "bfs3lean", "GenPBNodeD3F.cfg": "bfs3full", "GenPBNodeD4.cfg": "bfs4lean"}[c]
         sets.append((name, ctx.tlc_gen("PBNode", "GenPBNode.tla", c, timeout=1800)))
-    nscr, length = (120, 20) if ctx.quick else (1500, 20)
+    nscr, length = (120, 20) if ctx.quick else (1000, 20)
     scripts = make_scripts(ctx.rng, nscr, length)
     sdir = ctx.specdir("PBNode")
     with open(os.path.join(sdir, "script.ndjson"), "w") as f:
